@@ -319,12 +319,14 @@ namespace occa {
 
     kernelProps = kernelProperties(props);
 
-    kernelHash = (
-      hash()
-      ^ modeDevice->kernelHash(kernelProps)
-      ^ kernelHeaderHash(kernelProps)
-      ^ sourceHash
-    );
+    // Hash the labelled parts together: XOR-ing them let equal parts cancel
+    // and parts with exchanged values collide
+    occa::json key;
+    key["device"] = hash().getFullString();
+    key["mode"]   = modeDevice->kernelHash(kernelProps).getFullString();
+    key["header"] = kernelHeaderHash(kernelProps).getFullString();
+    key["source"] = sourceHash.getFullString();
+    kernelHash = occa::hash(key);
 
     kernelHash = applyDependencyHash(kernelHash);
   }
